@@ -95,6 +95,11 @@ def run_check(prop, tier, seed):
         by_sig.setdefault(v.get("signature", v.get("clause", "?")), []).append(v)
     known_seen = []
     new_viol = []
+    # every open finding listed for this property is announced on every run; those this run did not happen to re-observe
+    # (rare shapes, mostly seen at the thorough tier) say so
+    for k in known.load():
+        if k["property"] == prop and k.get("status") == "open" and k["signature"] not in by_sig:
+            print(f"KNOWN-FINDING: property={prop} {k['key']}: {k['what']} (listed; not re-observed in this run)")
     for sig, vs in sorted(by_sig.items()):
         k = known.match_open(prop, sig)
         if k:
